@@ -1249,3 +1249,54 @@ def opaque_helpers_in(repo, fi: FunctionInfo, texts) -> List[str]:
         if any(re.search(r"\b" + re.escape(name) + r"\(", t) for t in texts):
             out.append(name)
     return sorted(out)
+
+
+_MUTATING = {"append", "extend", "add", "update", "insert", "pop", "remove", "clear", "setdefault", "sort", "reverse", "discard", "appendleft", "popleft"}
+
+
+def _has_mutable_display(v: ast.AST) -> bool:
+    if isinstance(v, (ast.List, ast.Dict, ast.Set, ast.ListComp, ast.DictComp, ast.SetComp)):
+        return True
+    if isinstance(v, ast.Tuple):
+        return any(_has_mutable_display(e) for e in v.elts)
+    if isinstance(v, ast.Call) and isinstance(v.func, ast.Name) and v.func.id in ("list", "dict", "set", "defaultdict", "deque") :
+        return True
+    return False
+
+
+def check_shared_mutables(ck, rule: str, fi: FunctionInfo) -> None:
+    """`dict.fromkeys(keys, <mutable>)` and `[<mutable>] * n` make every entry the SAME object;
+    when the function then mutates an entry (d[k].append(..), d[k][0].append(..), t[i][j] = ..)
+    the change shows under every key"""
+    for st in own_nodes(fi.node):
+        if not (isinstance(st, ast.Assign) and len(st.targets) == 1 and isinstance(st.targets[0], ast.Name)):
+            continue
+        v, name = st.value, st.targets[0].id
+        shared = None
+        if isinstance(v, ast.Call) and ast.unparse(v.func) in ("dict.fromkeys", "OrderedDict.fromkeys", "collections.OrderedDict.fromkeys") and len(v.args) == 2 and _has_mutable_display(v.args[1]):
+            shared = f"dict.fromkeys(.., {ast.unparse(v.args[1])})"
+        if isinstance(v, ast.BinOp) and isinstance(v.op, ast.Mult):
+            for a_, b_ in ((v.left, v.right), (v.right, v.left)):
+                if isinstance(a_, ast.List) and len(a_.elts) == 1 and _has_mutable_display(a_.elts[0]):
+                    shared = f"{ast.unparse(a_)} * {ast.unparse(b_)}"
+        if shared is None:
+            continue
+        for n in own_nodes(fi.node):
+            hit = None
+            if isinstance(n, ast.Call) and isinstance(n.func, ast.Attribute) and n.func.attr in _MUTATING:
+                base = n.func.value
+                depth = 0
+                while isinstance(base, ast.Subscript):
+                    base, depth = base.value, depth + 1
+                if depth >= 1 and isinstance(base, ast.Name) and base.id == name:
+                    hit = n
+            if isinstance(n, (ast.Assign, ast.AugAssign)):
+                for t in (n.targets if isinstance(n, ast.Assign) else [n.target]):
+                    base, depth = t, 0
+                    while isinstance(base, ast.Subscript):
+                        base, depth = base.value, depth + 1
+                    if depth >= 2 and isinstance(base, ast.Name) and base.id == name:
+                        hit = n
+            if hit is not None:
+                ck.violated(rule, fi, st, f"{name} = {shared}: every entry is one and the same object, and `{ast.unparse(hit)[:60]}` changes it in place: the update made for one key is seen under all the others")
+                break
